@@ -171,4 +171,92 @@ theorem processFrames_perfect {R : Type} [Field R] [LinearOrder R] [IsStrictOrde
     · simp only [List.length_append, List.length_map, (sortDesc_perm _ gts).length_eq, ih3,
         List.map_cons, List.sum_cons]
 
+/-! ### `user_labels_only=False`: all frames, all instances -/
+
+theorem mem_pairsOfVideoAll (gt : Labels G) (pr : Labels P) (vi pj : Nat) (a : LFrame G) (b : LFrame P) :
+    (a, b) ∈ pairsOfVideoAll gt pr vi pj ↔
+      a ∈ gt.frames ∧ a.video = vi ∧
+        pr.frames.find? (fun x => x.video == pj && x.frameIdx == a.frameIdx) = some b := by
+  unfold pairsOfVideoAll
+  simp only [List.mem_flatMap, List.mem_filter]
+  constructor
+  · rintro ⟨lf, ⟨hlf, hcond⟩, hmem⟩
+    simp only [beq_iff_eq] at hcond
+    cases hf : pr.frames.find? (fun x => x.video == pj && x.frameIdx == lf.frameIdx) with
+    | none => rw [hf] at hmem; simp at hmem
+    | some x =>
+      rw [hf] at hmem
+      have : a = lf ∧ b = x := by simpa using hmem
+      obtain ⟨rfl, rfl⟩ := this
+      exact ⟨hlf, hcond, hf⟩
+  · rintro ⟨ha, hv, hf⟩
+    refine ⟨a, ⟨ha, by simpa using hv⟩, ?_⟩
+    rw [hf]; simp
+
+theorem mem_pairsFromAll (gt : Labels G) (pr : Labels P) (a : LFrame G) (b : LFrame P) :
+    ∀ (vs : List VideoKey) (vi : Nat), (a, b) ∈ pairsFromAll gt pr vi vs ↔
+      ∃ j vk pj, vs[j]? = some vk ∧ firstIdx (sameVideo vk) pr.videos = some pj ∧
+        (a, b) ∈ pairsOfVideoAll gt pr (vi + j) pj
+  | [], vi => by simp [pairsFromAll]
+  | vk :: rest, vi => by
+    unfold pairsFromAll
+    rw [List.mem_append, mem_pairsFromAll gt pr a b rest (vi + 1)]
+    constructor
+    · rintro (h | ⟨j, vk', pj, hj, hf, hm⟩)
+      · cases hf : firstIdx (sameVideo vk) pr.videos with
+        | none => rw [hf] at h; simp at h
+        | some pj => rw [hf] at h; exact ⟨0, vk, pj, by simp, hf, by simpa using h⟩
+      · exact ⟨j + 1, vk', pj, by simpa using hj, hf, by
+          have : vi + (j + 1) = vi + 1 + j := by omega
+          rw [this]; exact hm⟩
+    · rintro ⟨j, vk', pj, hj, hf, hm⟩
+      cases j with
+      | zero =>
+        have : vk = vk' := by simpa using hj
+        subst this
+        left; rw [hf]; simpa using hm
+      | succ j' =>
+        right
+        exact ⟨j', vk', pj, by simpa using hj, hf, by
+          have : vi + (j' + 1) = vi + 1 + j' := by omega
+          rw [← this]; exact hm⟩
+
+theorem mem_findFramePairsAll (gt : Labels G) (pr : Labels P) (a : LFrame G) (b : LFrame P) :
+    (a, b) ∈ findFramePairsAll gt pr ↔
+      ∃ vk pj, gt.videos[a.video]? = some vk ∧ firstIdx (sameVideo vk) pr.videos = some pj ∧
+        a ∈ gt.frames ∧
+        pr.frames.find? (fun x => x.video == pj && x.frameIdx == a.frameIdx) = some b := by
+  unfold findFramePairsAll
+  rw [mem_pairsFromAll]
+  constructor
+  · rintro ⟨j, vk, pj, hj, hf, hm⟩
+    rw [mem_pairsOfVideoAll] at hm
+    obtain ⟨ha, hv, hfind⟩ := hm
+    have : a.video = j := by omega
+    exact ⟨vk, pj, by rw [this]; exact hj, hf, ha, hfind⟩
+  · rintro ⟨vk, pj, hj, hf, ha, hfind⟩
+    exact ⟨a.video, vk, pj, hj, hf, (mem_pairsOfVideoAll gt pr _ pj a b).mpr ⟨ha, by omega, hfind⟩⟩
+
+/-- the default mode is the all-frames mode minus the frames without (user) instances -/
+theorem mem_findFramePairs_iff_all (gt : Labels G) (pr : Labels P) (a : LFrame G) (b : LFrame P) :
+    (a, b) ∈ findFramePairs gt pr ↔ (a, b) ∈ findFramePairsAll gt pr ∧ a.insts ≠ [] := by
+  rw [mem_findFramePairs, mem_findFramePairsAll]
+  constructor
+  · rintro ⟨vk, pj, h1, h2, h3, h4, h5⟩; exact ⟨⟨vk, pj, h1, h2, h3, h5⟩, h4⟩
+  · rintro ⟨⟨vk, pj, h1, h2, h3, h5⟩, h4⟩; exact ⟨vk, pj, h1, h2, h3, h4, h5⟩
+
+/-- `len(positive_pairs) + len(false_negatives)` = number of enumerated gt instances of the paired frames -/
+theorem processFrames_count {R : Type} [Field R] [LinearOrder R] [IsStrictOrderedRing R] (oks : G → P → Option R) (score : P → R) (thr : R) :
+    ∀ fs : List (Frame G P), (∀ f ∈ fs, f.prs.isSome) →
+      (processFrames oks score thr fs).1.length + (processFrames oks score thr fs).2.length =
+        (fs.map (fun f => f.gts.length)).sum
+  | [], _ => rfl
+  | ⟨gts, none⟩ :: fs, h => by have := h _ List.mem_cons_self; simp at this
+  | ⟨gts, some prs⟩ :: fs, h => by
+    have ih := processFrames_count oks score thr fs (fun f hf => h f (List.mem_cons_of_mem _ hf))
+    have hc := matchInstances_count oks score thr gts prs
+    rw [processFrames_cons_some]
+    simp only [List.length_append, List.map_cons, List.sum_cons]
+    omega
+
 end SleapVerif.Eval
